@@ -115,7 +115,7 @@ func runCase(c lcase, rep *batch.Report) batch.CaseResult {
 		return res
 	}
 	// key alphabet with shared prefixes and keys that are prefixes of each other
-	stems := []string{"a", "ab", "abc", "abd", "b", "b/", "b/x", "b/xy", "zz", "a/1", "a/12", "é", "éa"}
+	stems := []string{"a", "ab", "abc", "abd", "b", "b/", "b/x", "b/xy", "zz", "a/1", "a/12", "é", "éa", "a\xff", "a\xff\xff", "\xff"}
 	keys := []string{}
 	for len(keys) < c.Keys {
 		k := stems[rng.Intn(len(stems))]
